@@ -69,14 +69,17 @@ def explore(check, obs, configs, limit=None, invariants=('NoFault', 'NoForeignSi
     runs = []
     from concurrent.futures import ThreadPoolExecutor
 
+    def lim(consts):        # configurations whose interesting states are rare name their own witness limit (`_full`)
+        return max(limit, consts.get('_full', 0))
+
     def gen(item):
         label, consts = item
         return label, consts, check.witnesses(label, consts, emit='EmitOps', invariants=list(invariants) + (['NoStuck'] if check.tier == 'thorough' else []),
-                                              coverage=check.tier == 'thorough', limit=limit)
+                                              coverage=check.tier == 'thorough', limit=lim(consts))
     with ThreadPoolExecutor(3) as ex:          # the TLC runs of the configurations overlap
         generated = list(ex.map(gen, configs))
     for label, consts, ws in generated:
-        batch = [(p, t, consts['NRoots']) for p, t in replay(check, ws, consts, limit=limit)]
+        batch = [(p, t, consts['NRoots']) for p, t in replay(check, ws, consts, limit=lim(consts))]
         if obs is not None:
             judge(check, obs, batch)        # verdict per configuration; the batch is dropped (memory of the thorough tier)
         else:
